@@ -71,3 +71,46 @@ Theorem C04_subdir_name_injective : forall S S', 0 <= S < 253402300800 -> 0 <= S
   S = S'.
 Proof. exact subdir_name_injective. Qed.
 Print Assumptions C04_subdir_name_injective.
+
+(* ---- the writer as a whole.  After ANY history of public API calls (rf_write / rf_write_blocks in any
+   mix, accepted or refused) every index a file of the channel holds lies in the file the exact layout
+   names for it -- f_ms a = F_of k = floor(k*d*1000/n) rounded down to the file cadence, whose name and
+   subdirectory are the pure functions proved above -- and no two files hold the same index. *)
+From DRF Require Import Model.WriterCore Model.PyWriter Proofs.WriterInv Proofs.PyApiHistory Proofs.ApiLayout.
+
+Theorem C04_api_index_in_named_file_gapped : forall c ops a k v,
+  vcfg c -> c_chunk c = true -> c_cont c = false -> Forall api_arg_ok ops ->
+  In a (all_files (p_w (fold_left (api_state c) ops py_init))) -> file_lookup a k = Some v ->
+  f_ms a = F_of k (c_n c) (c_d c) (c_fc c).
+Proof. exact api_index_in_named_file_gapped. Qed.
+Print Assumptions C04_api_index_in_named_file_gapped.
+
+Theorem C04_api_index_in_named_file_continuous_chunked : forall c ops a k v,
+  vcfg c -> c_chunk c = true -> c_cont c = true -> Forall api_arg_ok ops ->
+  In a (all_files (p_w (fold_left (api_state c) ops py_init))) -> file_lookup a k = Some v ->
+  f_ms a = F_of k (c_n c) (c_d c) (c_fc c).
+Proof. exact api_index_in_named_file_continuous_chunked. Qed.
+Print Assumptions C04_api_index_in_named_file_continuous_chunked.
+
+Theorem C04_api_index_in_named_file_continuous_unchunked : forall c ops a k v,
+  vcfg c -> c_chunk c = false -> c_cont c = true -> Forall api_arg_ok ops ->
+  In a (all_files (p_w (fold_left (api_state c) ops py_init))) -> file_lookup a k = Some v ->
+  f_ms a = F_of k (c_n c) (c_d c) (c_fc c).
+Proof. exact api_index_in_named_file_continuous_unchunked. Qed.
+Print Assumptions C04_api_index_in_named_file_continuous_unchunked.
+
+Theorem C04_api_no_index_in_two_files_gapped : forall c ops i j a b k v w,
+  vcfg c -> c_chunk c = true -> c_cont c = false -> Forall api_arg_ok ops ->
+  let fs := all_files (p_w (fold_left (api_state c) ops py_init)) in
+  nth_error fs i = Some a -> nth_error fs j = Some b ->
+  file_lookup a k = Some v -> file_lookup b k = Some w -> i = j.
+Proof. exact api_no_index_in_two_files_gapped. Qed.
+Print Assumptions C04_api_no_index_in_two_files_gapped.
+
+Theorem C04_api_no_index_in_two_files_continuous_unchunked : forall c ops i j a b k v w,
+  vcfg c -> c_chunk c = false -> c_cont c = true -> Forall api_arg_ok ops ->
+  let fs := all_files (p_w (fold_left (api_state c) ops py_init)) in
+  nth_error fs i = Some a -> nth_error fs j = Some b ->
+  file_lookup a k = Some v -> file_lookup b k = Some w -> i = j.
+Proof. exact api_no_index_in_two_files_continuous_unchunked. Qed.
+Print Assumptions C04_api_no_index_in_two_files_continuous_unchunked.
